@@ -6,6 +6,7 @@ import (
 	"fmt"
 	"sort"
 	"testing"
+	"time"
 
 	col "github.com/craterdog/go-collection-framework/v4/collection"
 	"verifharness/core"
@@ -77,6 +78,7 @@ type qrun struct {
 	seq    int
 	res    sched.Result
 	steps  int
+	after  string // what went wrong when the queue was used once more after the program had ended
 }
 
 // call logs invocation and response around f; one goroutine runs at a time, so the shared log needs no lock.
@@ -175,6 +177,32 @@ func runProgramE[E any](p qprog, src core.Source, cd lib.Codec[E]) *qrun {
 	}
 	r.res = s.Run()
 	r.steps = r.res.Steps
+	if !r.res.Deadlock && r.res.Aborted == "" {
+		// The program is over and every goroutine has finished: the queue must still answer (a lock left
+		// behind by a rare exit path shows here).  Plain goroutines, the scheduler is done.
+		uninstall()
+		done := make(chan string, 1)
+		go func() {
+			defer func() {
+				if x := recover(); x != nil {
+					done <- "panicked: " + lib.Short(x)
+				}
+			}()
+			size, arr := q.GetSize(), q.AsArray()
+			_ = q.IsEmpty()
+			q.RemoveAll()
+			if size != len(arr) && p.RemoveAll == 0 {
+				done <- fmt.Sprintf("GetSize() = %d but AsArray() lists %d values", size, len(arr))
+				return
+			}
+			done <- ""
+		}()
+		select {
+		case r.after = <-done:
+		case <-time.After(3 * time.Second):
+			r.after = "GetSize/AsArray/IsEmpty/RemoveAll did not return within 3 s"
+		}
+	}
 	return r
 }
 
@@ -322,6 +350,9 @@ func linearizable(events []*qevent) (bool, string) {
 
 func checkClauses(r *qrun) *core.Violation {
 	p := r.prog
+	if r.after != "" {
+		return core.Violate("C04/queue-unusable-after-the-program", "after every goroutine of the program had finished, the queue was used once more: %s\nhistory: %s", r.after, historyString(r.events))
+	}
 	added := map[int]*qevent{}
 	for _, e := range r.events {
 		if e.Op == "Add" {
@@ -529,6 +560,9 @@ func historyString(events []*qevent) string {
 
 func checkQuiescence(r *qrun) *core.Violation {
 	p := r.prog
+	if r.after != "" {
+		return core.Violate("C05/queue-unusable-after-the-program", "after every goroutine of the program had finished, the queue was used once more: %s\nhistory: %s", r.after, historyString(r.events))
+	}
 	if r.res.Aborted != "" {
 		panic(core.HarnessError{Msg: "scheduler aborted: " + r.res.Aborted})
 	}
